@@ -171,7 +171,13 @@ impl Exp {
                     },
                     BinOp::Mul => match (lhs, rhs) {
                         (Exp::Number(lhs), Exp::Number(rhs)) => Exp::Number(lhs * rhs),
-                        (Exp::Number(0.0), _) | (_, Exp::Number(0.0)) => Exp::Number(0.0),
+                        // an absorbing zero may only drop an operand that is defined everywhere,
+                        // otherwise `0 * (x / 0)` would hide the division from the linearizer
+                        (Exp::Number(0.0), other) | (other, Exp::Number(0.0))
+                            if !other.may_be_undefined() =>
+                        {
+                            Exp::Number(0.0)
+                        }
                         (Exp::Number(1.0), rhs) => rhs,
                         (lhs, Exp::Number(1.0)) => lhs,
                         (lhs, rhs) => Exp::BinOp(BinOp::Mul, lhs.to_box(), rhs.to_box()),
@@ -308,6 +314,28 @@ impl Exp {
                 }
             }
             exp => exp.clone(),
+        }
+    }
+
+    /// True when the (already simplified) expression contains a division whose divisor is not a
+    /// non-zero literal, or an empty min/max: evaluating it may fail, so it must stay visible.
+    pub fn may_be_undefined(&self) -> bool {
+        match self {
+            Exp::Number(_) | Exp::Variable(_) => false,
+            Exp::BinOp(BinOp::Div, lhs, rhs) => {
+                !matches!(**rhs, Exp::Number(d) if d != 0.0)
+                    || lhs.may_be_undefined()
+                    || rhs.may_be_undefined()
+            }
+            Exp::BinOp(_, lhs, rhs)
+            | Exp::Xor(lhs, rhs)
+            | Exp::Implies(lhs, rhs)
+            | Exp::Iff(lhs, rhs) => lhs.may_be_undefined() || rhs.may_be_undefined(),
+            Exp::UnOp(_, exp) | Exp::Abs(exp) | Exp::Not(exp) => exp.may_be_undefined(),
+            Exp::Min(exps) | Exp::Max(exps) => {
+                exps.is_empty() || exps.iter().any(|exp| exp.may_be_undefined())
+            }
+            Exp::And(exps) | Exp::Or(exps) => exps.iter().any(|exp| exp.may_be_undefined()),
         }
     }
 
@@ -480,16 +508,26 @@ fn simplify_logic_nary(exps: &[Exp], is_and: bool) -> Exp {
             (_, exp) => flattened.push(exp),
         }
     }
+    let any_undefined = flattened.iter().any(|exp| exp.may_be_undefined());
     let mut result: Vec<Exp> = Vec::new();
     for exp in flattened {
         if let Exp::Number(value) = exp {
             let truthy = num_truthy(value);
-            if is_and && !truthy {
-                return Exp::Number(0.0);
+            //absorbing constants short-circuit, unless that would drop an operand that is not
+            //defined everywhere (a visible division by zero / by a non-constant, an empty min/max)
+            if !any_undefined {
+                if is_and && !truthy {
+                    return Exp::Number(0.0);
+                }
+                if !is_and && truthy {
+                    return Exp::Number(1.0);
+                }
+                continue;
             }
-            if !is_and && truthy {
-                return Exp::Number(1.0);
+            if truthy == is_and {
+                continue;
             }
+            result.push(Exp::Number(value));
             //identity constants are dropped
         } else {
             result.push(exp);
